@@ -285,3 +285,66 @@ func (c *Ctx) inLoop(l *Loop, b *ssa.BasicBlock) bool {
 	}
 	return false
 }
+
+// CtxInstr is an instruction together with the chain of helper call sites
+// through which it is reached from the anchor function.
+type CtxInstr struct {
+	In     ssa.Instruction
+	Frames []ssa.CallInstruction
+}
+
+// instrsCtx: like instrs, but an instruction inside a new helper is reported
+// once per call chain leading to it, so that its operands can be rendered in
+// the context of each caller.
+func (c *Ctx) instrsCtx(fn *ssa.Function, p InstrPred) []CtxInstr {
+	var out []CtxInstr
+	var visit func(f *ssa.Function, frames []ssa.CallInstruction)
+	visit = func(f *ssa.Function, frames []ssa.CallInstruction) {
+		for _, b := range f.Blocks {
+			for _, in := range b.Instrs {
+				if p(in) {
+					out = append(out, CtxInstr{in, append([]ssa.CallInstruction{}, frames...)})
+				}
+				ci, ok := in.(ssa.CallInstruction)
+				if !ok || len(frames) >= 4 {
+					continue
+				}
+				cal := ci.Common().StaticCallee()
+				if cal == nil || !c.isNew(cal) {
+					continue
+				}
+				rec := cal == fn
+				for _, fr := range frames {
+					if fr.Common().StaticCallee() == cal {
+						rec = true
+					}
+				}
+				if !rec {
+					visit(cal, append(frames, ci))
+				}
+			}
+		}
+	}
+	visit(fn, nil)
+	return out
+}
+
+// within evaluates f with the given helper frames active (terms see the callers' arguments).
+func (c *Ctx) within(frames []ssa.CallInstruction, f func()) {
+	saved := c.frames
+	c.frames = append(append([]ssa.CallInstruction{}, saved...), frames...)
+	defer func() { c.frames = saved }()
+	f()
+}
+
+// actsFor: fn is anchor itself or a new helper running only on behalf of anchor.
+func (c *Ctx) actsFor(fn, anchor *ssa.Function) bool {
+	if fn == anchor {
+		return true
+	}
+	if !c.isNew(fn) {
+		return false
+	}
+	own := c.ownerNames(fn)
+	return len(own) == 1 && own[0] == c.fname(anchor)
+}
